@@ -766,6 +766,10 @@ def krylov(model, sfield, efield, var):
     except _ConvergenceError:
         i = -1  # Mark it as error; returned field is all zero.
         var.exit_message += " (returned field is zero)"
+    else:
+        # The solver can return between two callbacks; ensure the reported
+        # error is the one of the returned field.
+        var.l2 = residual(model, sfield, efield, True)
 
     # Convergence-checks for sslsolver.
     if var.verb == 3:
